@@ -18,7 +18,25 @@ from harness.impl import annot_sx, parse_model_outcome, sx_int
 warnings.simplefilter("ignore")
 
 DIMS = ["2", "3", "a", "c=2", "...", "*b"]
-LITS = {"2": 2, "3": 3, "c=2": 2}
+DIMS_BIG = ["257", "k=1000", "65536", "a", "...", "*b"]   # sizes beyond CPython's small-int cache, beyond a byte, beyond 16 bits
+BIG_SIZES = (1, 256, 257, 1000, 65536)
+
+
+class _Lits:
+    """literal value of a dimension spelling: digits, or name=digits"""
+
+    def __contains__(self, d: str) -> bool:
+        return self.get(d) is not None
+
+    def get(self, d: str):
+        r = d.split("=", 1)[-1]
+        return int(r) if r.isascii() and r.isdigit() else None
+
+    def __getitem__(self, d: str) -> int:
+        return self.get(d)
+
+
+LITS = _Lits()
 
 
 def reference(dims: list[str], cls_ok: bool, shape: tuple) -> dict:
@@ -93,6 +111,22 @@ def run(tier: str, seed: int, rep: Report, model: Model) -> dict:
             for cls, lib, dt, ok in dts:
                 tasks.append({"cls": cls, "s": s, "dims": dims, "lib": lib, "dt": dt, "shape": list(shape), "ok": ok})
     rep.streams["exhaustive"] = len(tasks)
+    # large sizes: literal axes and actual sizes of 256 / 257 / 1000 / 65536 (numpy only, at most ~2M elements)
+    nbig = 0
+    for n in (1, 2, 3):
+        for combo in itertools.product(DIMS_BIG, repeat=n):
+            if sum(1 for d in combo if d in ("...", "*b")) > 1 or not any(d in LITS for d in combo):
+                continue
+            for r in range(max(0, n - 1), n + 2):
+                for shape in itertools.product(BIG_SIZES, repeat=r):
+                    prod = 1
+                    for v in shape:
+                        prod *= v
+                    if prod > 2_000_000:
+                        continue
+                    tasks.append({"cls": "FloatTensor", "s": " ".join(combo), "dims": list(combo), "lib": "np", "dt": "f32", "shape": list(shape), "ok": True})
+                    nbig += 1
+    rep.streams["large_sizes"] = nbig
     reqs = []
     for t in tasks:
         h = {"cls": t["cls"], "shape": t["s"]}
